@@ -8,6 +8,7 @@ import Driver.Util
     ctl fss <frame_size> <variable_duration> <Fs>                      frame_size_select
     ctl create enc <Fs> <ch> <app> <failk>                             create (+ k-th malloc fails)
     ctl create dec <Fs> <ch> <failk>
+    ctl create encinit <Fs> <ch> <app>   /   ctl create decinit <Fs> <ch>   (init on caller memory)
     ctl create msenc <Fs> <ch> <streams> <coupled> <map> <app> <failk>
     ctl create mssur <Fs> <ch> <family> <app> <failk>
     ctl create msdec <Fs> <ch> <streams> <coupled> <map> <failk>
@@ -329,9 +330,9 @@ def checkChannels (s : EncSt) (k : Nat) (f1 : Int) (pks : List PkObs) : Option S
       (s.forceChannels = 2 && chOf p ≠ 2) || (s.forceChannels = 1 && chOf p ≠ 1)
     else if f1 = 2 then chOf p ≠ 2
     else if f1 = 1 then
-      if s.useDtx = 0 then i ≥ k + 1 && chOf p ≠ 1
-      else -- SILK DTX returns before prev_channels is updated: only "never two stereo packets in a row"
-        i ≥ k + 1 && chOf p ≠ 1 && (match pks[i-1]? with | some q => chOf q ≠ 1 | none => false)
+      -- "takes effect within three packets": packets k, k+1, k+2 may still be stereo (the model proves
+      -- that only packet k is); DTX packets (TOC only) are exempt
+      decide (i ≥ k + 3) && decide (p.len > 2) && chOf p ≠ 1
     else false)
   match bad with
   | some (i, _) => some s!"channels@{i}"
@@ -397,6 +398,14 @@ def handle : List String → String
       | .ok s => s!"OK live=0 {encSnap s}"
       | r => resHead r ++ " live=0"
     | _, _, _, _ => "bad-op"
+  | ["create", "encinit", fs, ch, app] =>
+    match parseInt fs, parseInt ch, parseInt app with
+    | some fs, some ch, some app => if encArgsOk fs ch app then "OK" else "BAD_ARG"
+    | _, _, _ => "bad-op"
+  | ["create", "decinit", fs, ch] =>
+    match parseInt fs, parseInt ch with
+    | some fs, some ch => if decArgsOk fs ch then "OK" else "BAD_ARG"
+    | _, _ => "bad-op"
   | ["create", "dec", fs, ch, k] =>
     match parseInt fs, parseInt ch, parseInt k with
     | some fs, some ch, some k =>
